@@ -3086,9 +3086,16 @@ class QuicConnection:
                 cipher_suite=cipher_suite, secret=secret, version=self._version
             )
         else:
-            crypto.recv.setup(
-                cipher_suite=cipher_suite, secret=secret, version=self._version
-            )
+            version = self._version
+            if (
+                epoch == tls.Epoch.ZERO_RTT
+                and not self._is_client
+                and self._crypto_packet_version is not None
+            ):
+                # 0-RTT packets are protected using the version of the client's
+                # first flight, even if we just selected another compatible one.
+                version = self._crypto_packet_version
+            crypto.recv.setup(cipher_suite=cipher_suite, secret=secret, version=version)
 
     def _add_local_challenge(self, challenge: bytes, network_path: QuicNetworkPath):
         self._local_challenges[challenge] = network_path
